@@ -133,3 +133,10 @@ func VerifSendDumbDataWriter(w io.Writer, name []byte, size int64) error {
 func VerifRecvDumbDiscard(ctx context.Context, conn transfer.Conn) (string, error) {
 	return recvDumbDiscard(ctx, conn, nil)
 }
+
+// ---- dumb-tcp connection set-up (C09) ---------------------------------------------
+
+func VerifDialAddrs(ctx context.Context, addrs []string) (net.Conn, error) { return dialAddrs(ctx, addrs) }
+func VerifAcceptWithContext(ctx context.Context, ln net.Listener) (net.Conn, error) {
+	return acceptWithContext(ctx, ln)
+}
